@@ -108,6 +108,26 @@ theorem C12_fail_closed : FailClosed Quirks.current := by
   rw [hr]
   exact ⟨rfl, secDeleted_of_code n bl hn⟩
 
+/-- **Any failing target fails the block, at every position.** For a security block of any quirk set,
+    acceptance setting and block list: if the target at index `j` of its target list – first, middle
+    or last – is missing, has no result list, has not exactly one result, or its cryptographic check
+    does not return "verified", then verifying the block records a failure; later (or earlier)
+    targets that verify do not withdraw it. -/
+theorem C12_any_target_fails (q : Quirks) (e : Env) (tc : Nat) (st : List Blk) (num : Nat) (a : Asb)
+    (j : Nat) (hj : j < a.targets.length)
+    (hbad : targetDefect (e.orc num) (present st) a.results j a.targets[j] = true) :
+    (verifyAsb q e tc st num a).2.isSome = true := by
+  apply verifyAsb_fails
+  have h := anyTargetDefect_index (e.orc num) (present st) a.results a.targets 0 j hj (by simpa using hbad)
+  simp [asbDefect, h]
+
+/-- three targets, only the first / the middle / the last one failing -/
+example : ∀ bad ∈ [1, 3, 5],
+    (verifyAsb Quirks.current ⟨false, fun _ t => if t == bad then .fail else .ok, fun _ _ => []⟩ 11
+      [⟨1, 1, [], none⟩, ⟨7, 3, [], none⟩, ⟨10, 5, [], none⟩] 2
+      { targets := [1, 3, 5], ctxId := 3, paramIds := [5], results := [[17], [17], [17]] }).2 = some (.code 15) := by
+  decide
+
 /-! ## Former defects as regression instances -/
 
 namespace C12ex
